@@ -5,13 +5,13 @@ import gen_table as G
 RULE = ("generated scripts (1-3 tables of the core fragment, multi-line layout) with comments inserted at the positions the "
         "property lists: whole-line '--' / '#' / '/* .. */' lines (indented or not) between and inside statements and as the very last line of a script whose last statement may lack its ';', multi-line "
         "blocks starting at column 0 between or inside statements (closing line with or without leading text), trailing '-- c' "
-        "and '/* c */' after the code of a line; comment texts are quote-free words incl. statement-level words (create, go, use, "
+        "and '/* c */' after the code of a line (a trailing '-- c' also after a quoted literal, its text possibly holding apostrophes, "
+        "quotes and further '--' / '#' markers); other comment texts are quote-free words incl. statement-level words (create, go, use, "
         "insert, set ...). expected: entities equal to those of the comment-free script; every item of the comments entry is a "
         "piece of an inserted comment text, in source order. non-trivial = distinct script with >= 2 comments")
-PARTIAL = ["comment texts containing a comment marker, quotes, or '(' ')' ',' '=' are outside the explored class (D10 and the "
-           "pre-processor's re-spacing); indented multi-line blocks and a second /* */ on one code line are outside the positions "
+PARTIAL = ["comment texts containing '(' ')' ',' '=' (the pre-processor's re-spacing) and block-comment texts with quotes or markers are outside the explored class; indented multi-line blocks and a second /* */ on one code line are outside the positions "
            "the property lists",
-           "trailing comments after code are explored, not under a theorem"]
+           "trailing comments on multi-line statements and /* */ trailers are explored, not under a theorem"]
 ASSUMES = ["Model/Pre.v mirrors the comment handling of parser.py: correspondence A on every run"]
 
 WORDS = ["note", "todo", "create", "table", "Use", "Go", "insert", "Grant", "delete", "set", "alter", "drop", "x1", "primary", "key",
@@ -48,9 +48,12 @@ def insert_comments(rng, script):
             out.append(("   " + closing + " */") if closing else rng.choice(["*/", " */"]))
             texts += ts + ([closing] if closing else [])
         # the line itself, maybe with a trailing comment
-        if ln.strip() and rng.random() < 0.25 and "'" not in ln:
+        if ln.strip() and rng.random() < 0.25 and ("'" not in ln or rng.random() < 0.7):
             t = ctext(rng)
-            if rng.random() < 0.6:
+            if "'" in ln or rng.random() < 0.6:
+                # a trailing -- comment, also after a quoted literal; its text may hold apostrophes, quotes and further markers
+                if rng.random() < 0.5:
+                    t += " " + rng.choice(["it's", "don't", 'say "hi"', "-- more", "users' choice", "'quoted'", "# hash"])
                 out.append(ln + " -- " + t)
             else:
                 out.append(ln + " /* " + t + " */")
